@@ -301,3 +301,42 @@ def inline_self_calls(cls_lookup, self_name, e: ast.AST, depth: int = 2) -> ast.
             return c
 
     return Inl(depth).visit(_copy.deepcopy(e))
+
+
+def inline_module_calls(fi, e: ast.AST, depth: int = 2) -> ast.AST:
+    """copy of `e` in which calls  f(a1, ..., ak)  of single-return functions of fi's module are replaced by the function's
+    return expression (straight-line locals expanded) with its parameters substituted"""
+    import copy as _copy
+
+    class Sub(ast.NodeTransformer):
+        def __init__(self, amap):
+            self.amap = amap
+
+        def visit_Name(self, n):
+            if isinstance(n.ctx, ast.Load) and n.id in self.amap:
+                return _copy.deepcopy(self.amap[n.id])
+            return n
+
+    class Inl(ast.NodeTransformer):
+        def __init__(self, d):
+            self.d = d
+
+        def visit_Call(self, c):
+            self.generic_visit(c)
+            if self.d > 0 and isinstance(c.func, ast.Name) and not c.keywords and not any(isinstance(a, ast.Starred) for a in c.args):
+                b = fi.resolve(c.func.id)
+                if b is not None and b.kind == "func" and b.target.cls is None and b.target.module is fi.module \
+                        and len(b.target.params) == len(c.args) and b.target is not fi:
+                    body = [s for s in b.target.node.body if not (isinstance(s, ast.Expr) and isinstance(s.value, ast.Constant))]
+                    # straight-line helper:  x = e1; y = e2; return e3   (each local assigned once) reads as its return
+                    # expression with the locals expanded
+                    if body and isinstance(body[-1], ast.Return) and body[-1].value is not None and all(
+                            isinstance(s, ast.Assign) and len(s.targets) == 1 and isinstance(s.targets[0], ast.Name)
+                            for s in body[:-1]):
+                        names = [s.targets[0].id for s in body[:-1]]
+                        if len(set(names)) == len(names) and not (set(names) & set(b.target.params)):
+                            rv = expand_locals(b.target.node, body[-1].value, b.target.params) if names else _copy.deepcopy(body[-1].value)
+                            return Inl(self.d - 1).visit(Sub(dict(zip(b.target.params, c.args))).visit(rv))
+            return c
+
+    return Inl(depth).visit(_copy.deepcopy(e))
